@@ -13,7 +13,7 @@ func init() {
 			r.Rule("R15.5", 1, "commit-after-validate in createInstance")
 			r.Rule("R15.5b", 1, "resolve stores nothing itself")
 			r.Rule("R15.6", 8, "panic only in Must*; comma-ok type assertions only")
-			r.Rule("R15.7", 6, "typestate of tables reset by Close")
+			r.Rule("R15.7", 8, "typestate of tables reset by Close")
 			r.Rule("R15.8", 12, "nil-argument validation precedes use")
 			r.Rule("R15.9", 1, "AddProviderDeferred fails only for a nil provider")
 			r.Try(func() { ruleRecover(w, r, "R15.1") })
